@@ -171,7 +171,7 @@ def r61(ctx):
     for d in flw.defs:
         ck = None
         if d.kind == "assign" and d.stmt is not None:
-            ck = _current_key(d.stmt.targets[0]) if isinstance(d.stmt, ast.Assign) else None
+            ck = _current_key(d.stmt.targets[0], alias_curr.get(id(wt), set())) if isinstance(d.stmt, ast.Assign) else None
         if not ck:
             continue
         k = ck[0]
